@@ -474,3 +474,95 @@ Section S20.
     - now apply is_url_name_for_sound.
   Qed.
 End S20.
+
+(* ---------------- the maps depend only on the set of additions (C18) ---------------- *)
+Lemma lookup_none_lt k m : ssorted (map fst m) -> (forall k', In k' (map fst m) -> lex_lt k k' = true) -> lookup k m = None.
+Proof.
+  induction m as [|[k' v] r IH]; intros S H; [reflexivity|]. cbn [lookup].
+  destruct (beqb k k') eqn:E.
+  - apply beqb_true in E. subst k'. specialize (H k (or_introl eq_refl)). now rewrite lex_lt_irrefl in H.
+  - apply IH; [eapply ssorted_tail; eauto|]. intros k2 I. apply H. now right.
+Qed.
+Lemma lookup_not_in k m : ~ In k (map fst m) -> lookup k m = None.
+Proof.
+  induction m as [|[k' v] r IH]; intros NI; [reflexivity|]. cbn [lookup].
+  destruct (beqb k k') eqn:E; [apply beqb_true in E; subst; exfalso; apply NI; now left|].
+  apply IH. intros I. apply NI. now right.
+Qed.
+
+Lemma sorted_assoc_ext m1 : forall m2, ssorted (map fst m1) -> ssorted (map fst m2) ->
+  (forall k, lookup k m1 = lookup k m2) -> m1 = m2.
+Proof.
+  induction m1 as [|[k1 v1] r1 IH]; intros [|[k2 v2] r2] S1 S2 H.
+  - reflexivity.
+  - specialize (H k2). cbn in H. rewrite beqb_refl in H. discriminate.
+  - specialize (H k1). cbn in H. rewrite beqb_refl in H. discriminate.
+  - cbn [map fst] in S1, S2.
+    pose proof (ssorted_head_lt _ _ S1) as L1. pose proof (ssorted_head_lt _ _ S2) as L2. rewrite Forall_forall in L1, L2.
+    assert (K : k1 = k2).
+    { destruct (list_eq_dec N.eq_dec k1 k2) as [->|NE]; [reflexivity|exfalso].
+      destruct (lex_lt k1 k2) eqn:LT.
+      - pose proof (H k1) as H1. cbn [lookup] in H1. rewrite beqb_refl in H1.
+        destruct (beqb k1 k2) eqn:E; [apply beqb_true in E; congruence|].
+        rewrite lookup_none_lt in H1; [discriminate|eapply ssorted_tail; eauto|].
+        intros k' I. eapply lex_lt_trans; [exact LT|]. now apply L2.
+      - pose proof (lex_lt_total _ _ LT NE) as GT.
+        pose proof (H k2) as H2. cbn [lookup] in H2. rewrite beqb_refl in H2.
+        destruct (beqb k2 k1) eqn:E; [apply beqb_true in E; congruence|].
+        rewrite lookup_none_lt in H2; [discriminate|eapply ssorted_tail; eauto|].
+        intros k' I. eapply lex_lt_trans; [exact GT|]. now apply L1. }
+    subst k2. pose proof (H k1) as Hv. cbn [lookup] in Hv. rewrite beqb_refl in Hv. inversion Hv; subst v2.
+    f_equal. apply IH; [eapply ssorted_tail; eauto|eapply ssorted_tail; eauto|].
+    intros k. specialize (H k). cbn [lookup] in H. destruct (beqb k k1) eqn:E; [|exact H].
+    apply beqb_true in E. subst k.
+    rewrite !lookup_not_in; [reflexivity| |].
+    + intros I. specialize (L2 _ I). now rewrite lex_lt_irrefl in L2.
+    + intros I. specialize (L1 _ I). now rewrite lex_lt_irrefl in L1.
+Qed.
+
+Section Order.
+  Variable uni_esc uni_alnum : N -> bool.
+  Variable mm : mime_mode.
+  Variable header : bytes.
+  Notation run := (run_ops uni_esc uni_alnum mm header).
+
+  Lemma pubs_perm ops ops' : Permutation ops ops' -> Permutation (pubs uni_alnum ops) (pubs uni_alnum ops').
+  Proof.
+    induction 1 as [|x l l' P IH|x y l|l l' l'' P1 IH1 P2 IH2]; cbn [pubs flat_map]; fold (pubs uni_alnum).
+    - constructor.
+    - now apply Permutation_app_head.
+    - rewrite !app_assoc. apply Permutation_app_tail. apply Permutation_app_comm.
+    - eapply perm_trans; eauto.
+  Qed.
+
+  Lemma names_r_lookup_char ops : NoDup (map fst (pubs uni_alnum ops)) -> NoDup (map snd (pubs uni_alnum ops)) ->
+    forall url, lookup url (names_r (run ops)) =
+      match find (fun p => beqb (snd p) url) (pubs uni_alnum ops) with Some p => Some (fst p) | None => None end.
+  Proof.
+    intros N1 N2 url. destruct (find (fun p => beqb (snd p) url) (pubs uni_alnum ops)) as [[id u]|] eqn:F.
+    - apply find_some in F. destruct F as [I E]. cbn in E. apply beqb_true in E. subst u.
+      exact (proj1 (run_lookup uni_esc uni_alnum mm header ops N1 N2 id url I)).
+    - apply lookup_not_in. intros I. apply (proj1 (run_keys uni_esc uni_alnum mm header ops url)) in I.
+      apply in_map_iff in I. destruct I as [[id u] [E I]]. cbn in E. subst u.
+      pose proof (find_none _ _ F _ I) as X. cbn in X. now rewrite beqb_refl in X.
+  Qed.
+
+  (* the same additions in any order give the same url-name map, hence the same STATICS line *)
+  Lemma names_r_order_independent ops ops' : Permutation ops ops' ->
+    NoDup (map fst (pubs uni_alnum ops)) -> NoDup (map snd (pubs uni_alnum ops)) ->
+    names_r (run ops) = names_r (run ops').
+  Proof.
+    intros P N1 N2. pose proof (pubs_perm _ _ P) as PP.
+    assert (N1' : NoDup (map fst (pubs uni_alnum ops'))) by (eapply Permutation_NoDup; [apply Permutation_map; exact PP|exact N1]).
+    assert (N2' : NoDup (map snd (pubs uni_alnum ops'))) by (eapply Permutation_NoDup; [apply Permutation_map; exact PP|exact N2]).
+    apply sorted_assoc_ext; try apply run_sorted.
+    intros url. destruct (in_dec (list_eq_dec N.eq_dec) url (map snd (pubs uni_alnum ops))) as [I|NI].
+    - apply in_map_iff in I. destruct I as [[id u] [E I]]. cbn in E. subst u.
+      rewrite (proj1 (run_lookup uni_esc uni_alnum mm header ops N1 N2 id url I)).
+      symmetry. apply (run_lookup uni_esc uni_alnum mm header ops' N1' N2' id url). eapply Permutation_in; eauto.
+    - rewrite !lookup_not_in; [reflexivity| |].
+      + intros I. apply NI. apply (proj1 (run_keys uni_esc uni_alnum mm header ops' url)) in I.
+        eapply Permutation_in; [apply Permutation_sym; apply Permutation_map; exact PP|exact I].
+      + intros I. apply NI. now apply (proj1 (run_keys uni_esc uni_alnum mm header ops url)).
+  Qed.
+End Order.
